@@ -6,6 +6,7 @@ CONSTANTS
   Mirror = FALSE
   MaxLevel = 4
   Small = TRUE
+  Avoid = FALSE
   SimK = 0
   Acts = {"dset", "oset", "rebind", "ddel", "batch", "lset", "ldel", "slice", "lins", "inplace"}
 CONSTRAINT LevelBound
